@@ -28,8 +28,22 @@ open MosVerif MosVerif.Wire
 
 /-- `io.LimitReader(resp.Body, 65535)` in `DoHTransport.exchange` -/
 def dohLimit : Nat := Facts.c01up_dohLimit
-/-- `ReadMsgFromUDP(c.c, 4096)` in `readLoop`, and the floor `bufSize < 2048` in `ReadMsgFromUDP` -/
-def udpBuf : Nat := if Facts.c01up_udpBufSize < Facts.c01up_udpMinBuf then Facts.c01up_udpMinBuf else Facts.c01up_udpBufSize
+/-- the floor of `ReadMsgFromUDP`: `if bufSize < 2048 { bufSize = 2048 }`.
+    Tied by translation (`Lemmas/TranslatedC01Up.udpFloor_translated`). -/
+@[reducible] def udpFloor (bufSize : Nat) : Nat := if bufSize < 2048 then 2048 else bufSize
+/-- `ReadMsgFromUDP(c.c, 65535)` in `readLoop` (the argument is regenerated), through the floor of `ReadMsgFromUDP` -/
+def udpBuf : Nat := udpFloor Facts.c01up_udpBufSize
+
+/-- `pool.GetBuf(int(length))`: the number of octets `ReadMsgFromTCP` reads after the two length octets.
+    Tied by translation (`tcpBodyLen_translated`). -/
+@[reducible] def tcpBodyLen (length : Nat) : Nat := length
+/-- `n >= 12 && b[2]&(1<<1) != 0` of `ReadMsgFromUDP` (the conjunct `err != nil` is the `.err` branch in which
+    `headerOnly` is consulted). Tied by translation (`tcCut_translated`). -/
+@[reducible] def tcCut (n b2 : Nat) : Prop := n ≥ 12 ∧ (b2 / 2) % 2 = 1
+/-- `n > 0` of `readLoop`: a datagram that yields no message but had octets is skipped. (`udpSkips_translated`) -/
+@[reducible] def udpSkips (n : Nat) : Prop := n > 0
+/-- `r.Header.ID != qid` of `exchangeConn` is the negation of this. (`idMatches_translated`) -/
+@[reducible] def idMatches (id qid : Nat) : Prop := id = qid
 
 /-! ### framing -/
 
@@ -45,10 +59,10 @@ inductive Read where
 def readMsgFromTCP (s : Bytes) : Read :=
   match s with
   | h :: l :: rest =>
-    if rest.length < be16 h l then .short
-    else match unpackMsg (rest.take (be16 h l)) with
-      | .ok m => .msg m (rest.drop (be16 h l))
-      | .err => .bad (rest.drop (be16 h l))
+    if rest.length < tcpBodyLen (be16 h l) then .short
+    else match unpackMsg (rest.take (tcpBodyLen (be16 h l))) with
+      | .ok m => .msg m (rest.drop (tcpBodyLen (be16 h l)))
+      | .err => .bad (rest.drop (tcpBodyLen (be16 h l)))
       | .panic => .panic
   | _ => .short
 
@@ -117,7 +131,7 @@ def emptyHeader : Header := headerOfBits 0 0
 def headerOnly (d : Bytes) : Option Msg :=
   match d with
   | a :: b :: f :: _ =>
-    if d.length ≥ 12 ∧ (f.toNat / 2) % 2 = 1 then
+    if tcCut d.length f.toNat then
       some ⟨{ emptyHeader with id := be16 a b, response := (f.toNat / 128) % 2 = 1, truncated := true }, [], [], [], []⟩
     else none
   | _ => none
@@ -156,7 +170,7 @@ def unitStep (isTCP : Bool) (b : Bytes) : UnitRes :=
   else
     match readMsgFromUDP b with
     | .msg m => .msg m
-    | .bad n => if n > 0 then .skip else .close
+    | .bad n => if udpSkips n then .skip else .close
     | .panic => .panic
 
 inductive End where
@@ -284,7 +298,7 @@ def isStuck : End → Bool
     that does not decode, or whose id is not `qid`, is an error (the connection is closed by `releaseConn`). -/
 def reuseExchange (qid : Nat) (s : Bytes) : Res (Msg × Bytes) :=
   match readMsgFromTCP s with
-  | .msg m rest => if m.hdr.id = qid then .ok (m, rest) else .err
+  | .msg m rest => if idMatches m.hdr.id qid then .ok (m, rest) else .err
   | .bad _ => .err
   | .short => .err
   | .panic => .panic
